@@ -1140,13 +1140,15 @@ class BuiltinMixin:
         # a CONSTANT format made only of literal text, `%%` and `%(name)s`, applied to a dict with
         # constant keys, is computed exactly (CPython: '%(k)s' % d == str(d[k]); '%%' is '%')
         cf = z3.simplify(fmt.t)
-        if z3.is_string_value(cf) and isinstance(arg, VRef) and isinstance(st.deref(arg), HDict) and st.deref(arg).present is None:
+        h0 = st.deref(arg) if isinstance(arg, VRef) else None
+        is_map_obj = isinstance(h0, HObj) and h0.cls[0].startswith("liquid") and load.find_method(h0.cls[0], h0.cls[1], "__getitem__") is not None
+        if z3.is_string_value(cf) and ((isinstance(h0, HDict) and h0.present is None) or is_map_obj):
             import re as _re
 
             from .solve import _unescape
             text = _unescape(cf.as_string())
             if _re.fullmatch(r"(?:[^%]|%%|%\(\w+\)s)*", text):
-                d = st.deref(arg).items
+                d = h0.items if not is_map_obj else None
                 states = [(st, [])]
                 for m_ in _re.finditer(r"[^%]+|%%|%\((\w+)\)s", text):
                     nxt = []
@@ -1157,6 +1159,18 @@ class BuiltinMixin:
                             nxt.append((s, acc + [z3.StringVal("%")]))
                         elif m_.group(1) is None:
                             nxt.append((s, acc + [z3.StringVal(m_.group(0))]))
+                        elif is_map_obj:
+                            # a mapping object: its __getitem__ is called with the key, then str()
+                            for s1, bound in self.get_attr(s, arg, "__getitem__"):
+                                if isinstance(bound, Raised):
+                                    nxt.append((s1, bound))
+                                    continue
+                                for s2, item in self.call_value(s1, bound, [VStr(z3.StringVal(m_.group(1)))], {}):
+                                    if isinstance(item, Raised):
+                                        nxt.append((s2, item))
+                                        continue
+                                    for s3, sv in self.to_str(s2, item):
+                                        nxt.append((s3, sv if isinstance(sv, Raised) else acc + [sv.t]))
                         elif m_.group(1) not in d:
                             nxt.append(self.raised(s, "KeyError", m_.group(1)))
                         else:
@@ -1178,7 +1192,30 @@ class BuiltinMixin:
                     a = box(arg)
                 except Unsupported:
                     a = U.ref(z3.IntVal(getattr(arg, "addr", -1)))
-                out.append((s, VStr(z3.Function("printf", S, U, I, S)(fmt.t, a, z3.IntVal(s.world)))))
+                res = VStr(z3.Function("printf", S, U, I, S)(fmt.t, a, z3.IntVal(s.world)))
+                h = s.deref(arg) if isinstance(arg, VRef) else None
+                if isinstance(h, (HDict, HODict)):
+                    # a wellformed format applied to a dict: KeyError unless every %(key)s of the
+                    # format is a key of the dict (an uninterpreted relation of format and dict:
+                    # nothing is known about it for a symbolic format)
+                    s.log.append(("printf", fmt, arg))
+                    has_all = z3.Function("printf_keys_in", S, U, I, B)(fmt.t, a, z3.IntVal(s.world))
+                    for s2, ok2 in self.branch(s, has_all):
+                        out.append((s2, res) if ok2 else self.raised(s2, "KeyError", "printf key"))
+                    continue
+                if isinstance(h, HObj) and h.cls[0].startswith("liquid") and load.find_method(h.cls[0], h.cls[1], "__getitem__") is not None:
+                    # ... applied to a mapping object: its __getitem__ is called for every %(key)s of
+                    # the format; executed here for ONE arbitrary key (what it may raise, for any key)
+                    s.log.append(("printf", fmt, arg))
+                    key = VStr(z3.Function("printf_some_key", S, S)(fmt.t))
+                    for s2, bound in self.get_attr(s, arg, "__getitem__"):
+                        if isinstance(bound, Raised):
+                            out.append((s2, bound))
+                            continue
+                        for s3, r3 in self.call_value(s2, bound, [key], {}):
+                            out.append((s3, r3 if isinstance(r3, Raised) else res))
+                    continue
+                out.append((s, res))
             else:
                 for exc in ("ValueError", "TypeError", "KeyError"):
                     out.append(self.raised(s.fork(), exc, "printf format"))
@@ -1532,7 +1569,15 @@ class BuiltinMixin:
         """findall on a CONCRETE text: decided by the real `re` module"""
         t = z3.simplify(self._s(args[0]))
         if not z3.is_string_value(t):
-            raise Unsupported("regex.findall on a symbolic text")
+            # a symbolic text: an uninterpreted sequence of strings (nothing is known about which
+            # substrings the pattern finds)
+            import hashlib
+
+            tag = hashlib.sha1(repr(rx.py).encode()).hexdigest()[:8]
+            seq = z3.Function("re_findall$" + tag, S, SeqU)(t)
+            k = z3.Int("k!findall")
+            st.assume(z3.ForAll([k], z3.Implies(z3.And(k >= 0, k < z3.Length(seq)), U.is_str(seq[k]))))
+            return [(st, st.alloc(HList(seq=seq)))]
         from .solve import _unescape
         found = self._regex_compiled(rx).findall(_unescape(t.as_string()))
         return [(st, st.alloc(HList(items=[const(x) if isinstance(x, str) else VTuple(tuple(const(y) for y in x)) for x in found])))]
